@@ -1,0 +1,20 @@
+//go:build verif
+
+// Verification contracts for the SQL proxy (comment-only; read by /verif/govc).
+// This file contains no executable code.
+
+package proxy
+
+// A pattern matches a topic when, after trimming, it is "*", equals the topic, or path.Match accepts it.
+//@ spec func patMatches(pattern string, topic string) bool = trimSpace(pattern) != "" && (trimSpace(pattern) == "*" || pathMatchOK(trimSpace(pattern), topic) || trimSpace(pattern) == topic)
+//@ opaque
+//@ spec func anyPattern(patterns []string, topic string) bool = exists i int :: 0 <= i && i < len(patterns) && patMatches(patterns[i], topic)
+
+//@ func matchPatterns
+//@   reveal patMatches
+//@   ensures [C23.sql_match_any] result == anyPattern(patterns, topic)
+//@   loop 1 invariant -1 <= rangeindex && rangeindex < len(patterns) && (forall j int :: 0 <= j && j <= rangeindex ==> !patMatches(patterns[j], topic))
+//@
+//@ func (a ACL) Allows
+//@   ensures [C23.sql_deny_overrides] anyPattern(a.Deny, topic) ==> !result
+//@   ensures [C23.sql_allow_rules] !anyPattern(a.Deny, topic) ==> result == (len(a.Allow) == 0 || anyPattern(a.Allow, topic))
